@@ -157,7 +157,11 @@ pub trait PostConversionLinter {
         assignment: &Assignment,
         _name_pos: Position,
     ) -> Result<(), LintErrorPos> {
-        let (_, v) = assignment.into();
+        let (left, v) = assignment.into();
+        // the subscripts of an array element on the left side are expressions too
+        if let Expression::ArrayElement(_, indices, _) = left {
+            self.visit_expressions(indices)?;
+        }
         self.visit_expression(v)
     }
 
